@@ -433,6 +433,15 @@ Theorem C15_source_find_network_freq_range : forall g : graph,
 Proof. exact gen_find_network_freq_range. Qed.
 Print Assumptions C15_source_find_network_freq_range.
 
+(* one step of the walk of build_oms_list (its filter translated; add_element and the unconditional
+   `nd_out.oms_id = oms_id; nd_out.oms = oms` around it template-matched) *)
+Theorem C15_source_walk_step : forall (g : graph) (f : nat) (x y : Z) (n : node),
+  lookup g y = Some n -> kind_eqb (kind n) KRoadm = false ->
+  same_res (walk g (S f) x y)
+           (let* nx := g_walk_next x y (succs n) in let* r := walk g f y nx in Ok (y :: r)).
+Proof. exact gen_walk_step. Qed.
+Print Assumptions C15_source_walk_step.
+
 (* the translated definitions compute: the regression of the touching-bands case through the generated code *)
 Example C15_source_nonvacuous :
   g_create_oms_bitmap [((193162500000000 # 1), (193226000000000 # 1)); ((193228000000000 # 1), (193350000000000 # 1))]
